@@ -182,6 +182,34 @@ class SimTable(object):
                 yield row
 
 
+class PipeFault(object):
+    """A table container that passes another table through and raises
+    instead of item `fail_at` (0 = header, n+1 = at exhaustion): a failure
+    injected into the middle of a pipeline whose source is not a SimTable
+    (e.g. fromdb on the connection that is also being loaded)."""
+
+    def __init__(self, inner, fail_at=None, kind='plain'):
+        self.inner = inner
+        self.fail_at = fail_at
+        self.cls = SOURCE_ERRORS.get(kind, SimSourceError)
+
+    def __iter__(self):
+        it = iter(self.inner)
+        i = 0
+        while True:
+            if self.fail_at is not None and i == self.fail_at:
+                CTX.fire('source-raise')
+                CTX.fire('pipeline-raise')
+                raise self.cls('injected failure in the pipeline at item %d'
+                               % i)
+            try:
+                row = next(it)
+            except StopIteration:
+                return
+            i += 1
+            yield row
+
+
 class LongTable(SimTable):
     """Synthetic long source: the first len(prefix) rows are given, the rest
     are generated on demand by a pure function of the index, so that a 10 000
